@@ -540,3 +540,78 @@ func readdAutoScenario(r *rand.Rand) []HOp {
 	}
 	return ops
 }
+
+// autoCollisionScenario: explicit PIDs inside the automatic range, added in an order that is not ascending (a high one first, then the
+// very PID automatic assignment would hand out next), followed by automatic additions: every stream must end up on a PID of its
+// own, in insertion order in the PMT, and every unit written must come back.
+func autoCollisionScenario(r *rand.Rand) []HOp {
+	mk := func(pid uint16, auto bool, slot int) HOp {
+		return HOp{Kind: "data", PID: pid, Auto: auto, Slot: slot, Data: &astits.MuxerData{PES: &astits.PESData{Header: &astits.PESHeader{StreamID: 0xC0, OptionalHeader: &astits.PESOptionalHeader{MarkerBits: 2}}, Data: gen.Bytes(r, 1+r.IntN(700))}}}
+	}
+	high := []uint16{0x1234, 0x1ffe, 0x0fff, 0x0400}[r.IntN(4)]
+	next := uint16(0x100)
+	var ops []HOp
+	nAutoBefore := r.IntN(3)
+	for k := 0; k < nAutoBefore; k++ {
+		ops = append(ops, HOp{Kind: "add", PID: 0, Auto: true, Slot: k, ES: &astits.PMTElementaryStream{StreamType: astits.StreamTypeMPEG2Audio}})
+		next++
+	}
+	ops = append(ops, HOp{Kind: "add", PID: high, ES: &astits.PMTElementaryStream{StreamType: astits.StreamTypeH264Video}, Slot: -1})
+	taken := []uint16{next}
+	if r.IntN(2) == 0 {
+		taken = append(taken, next+1+uint16(r.IntN(2)))
+	}
+	if r.IntN(2) == 0 { // not ascending among themselves either
+		taken[0], taken[len(taken)-1] = taken[len(taken)-1], taken[0]
+	}
+	for _, p := range taken {
+		ops = append(ops, HOp{Kind: "add", PID: p, ES: &astits.PMTElementaryStream{StreamType: astits.StreamTypeAACAudio}, Slot: -1})
+	}
+	nAutoAfter := 1 + r.IntN(3)
+	for k := 0; k < nAutoAfter; k++ {
+		ops = append(ops, HOp{Kind: "add", PID: 0, Auto: true, Slot: 10 + k, ES: &astits.PMTElementaryStream{StreamType: astits.StreamTypePrivateData}})
+	}
+	ops = append(ops, HOp{Kind: "pcr", PID: high}, HOp{Kind: "tables"})
+	for q := 0; q < 2; q++ {
+		ops = append(ops, mk(high, false, 0))
+		for _, p := range taken {
+			ops = append(ops, mk(p, false, 0))
+		}
+		for k := 0; k < nAutoAfter; k++ {
+			ops = append(ops, mk(0, true, 10+k))
+		}
+		for k := 0; k < nAutoBefore; k++ {
+			ops = append(ops, mk(0, true, k))
+		}
+	}
+	ops = append(ops, HOp{Kind: "tables"})
+	return ops
+}
+
+// exactPMTScenario: the stream set makes the PMT section exactly 183 bytes, so that pointer_field + section fill the packet with no
+// 0xFF after the CRC; the next emissions carry other (shorter) PMTs. Every emission must come back.
+func exactPMTScenario(r *rand.Rand) []HOp {
+	n := 1 + r.IntN(3)
+	pad := 167 - 5*n - 2 // body of one user-defined descriptor that makes the section 183 bytes long
+	short := r.IntN(3)   // 0: exactly full, 1 / 2: one or two bytes of 0xFF remain
+	var ops []HOp
+	for k := 0; k < n; k++ {
+		es := &astits.PMTElementaryStream{StreamType: astits.StreamTypeAACAudio}
+		if k == 0 {
+			es.ElementaryStreamDescriptors = []*astits.Descriptor{{Tag: 0x90, Length: uint8(pad - short), UserDefined: gen.Bytes(r, pad-short)}}
+		}
+		ops = append(ops, HOp{Kind: "add", PID: uint16(0x40 + k), ES: es, Slot: -1})
+	}
+	mk := func(pid uint16) HOp {
+		return HOp{Kind: "data", PID: pid, Data: &astits.MuxerData{PES: &astits.PESData{Header: &astits.PESHeader{StreamID: 0xC0, OptionalHeader: &astits.PESOptionalHeader{MarkerBits: 2}}, Data: gen.Bytes(r, 1+r.IntN(400))}}}
+	}
+	ops = append(ops, HOp{Kind: "pcr", PID: 0x40}, HOp{Kind: "tables"}, mk(0x40))
+	if n > 1 {
+		ops = append(ops, HOp{Kind: "remove", PID: uint16(0x40 + n - 1)})
+	} else {
+		ops = append(ops, HOp{Kind: "add", PID: 0x60, ES: &astits.PMTElementaryStream{StreamType: astits.StreamTypeMPEG2Video}, Slot: -1}) // now too large: refused emissions
+		ops = append(ops, HOp{Kind: "tables"}, HOp{Kind: "remove", PID: 0x60})
+	}
+	ops = append(ops, HOp{Kind: "tables"}, mk(0x40), HOp{Kind: "tables"}, mk(0x40))
+	return ops
+}
